@@ -236,10 +236,13 @@ func checkC11(c C11Case, rec *obs.Recorder) *obs.Violation {
 	} else {
 		want = ref.LFP(c.Facts, c.Rules)
 	}
-	if want.Ambiguous {
+	illFormed := c.Class == "unbound-head" || c.Class == "expr-error" || c.Class == "ill-formed-mix"
+	if want.Ambiguous && !illFormed {
 		rec.OutOfFragment()
 		return nil
 	}
+	// ill-formed programs whose outcome depends on evaluation order: only "nothing is stranded" is asserted
+	onlyStranding := illFormed && want.Ambiguous
 	size := want.Facts.Len()
 	longDur := c.MaxDurMs >= 10000
 	heavy := c.Class == "heavy"
@@ -267,7 +270,7 @@ func checkC11(c C11Case, rec *obs.Recorder) *obs.Violation {
 	}
 	rec.Label("entry:" + c.Entry)
 	rec.Label("result:" + name)
-	nontrivial := factsExceeded || itersExceeded || heavy || c.Class == "unbound-head" || c.Class == "expr-error" || c.Entry != "world"
+	nontrivial := factsExceeded || itersExceeded || heavy || illFormed || c.Entry != "world"
 	if nontrivial && rec.NonTrivial(c.text()) {
 		rec.Sample(map[string]any{"case": c.text(), "reference_size": size, "reference_rounds": want.Rounds, "result": name, "elapsed_ms": got.elapsed.Milliseconds()})
 	}
@@ -277,6 +280,11 @@ func checkC11(c C11Case, rec *obs.Recorder) *obs.Violation {
 		rec.Label("quiescence-inconclusive")
 	} else if len(stranded) > 0 {
 		return obs.ViolK("stranded", "%s: evaluation returned (%s) but %d goroutine(s) started by it stay blocked forever in a channel send (goroutine ids %v): their only receiver has returned", c.text(), name, len(stranded), stranded)
+	}
+
+	if onlyStranding {
+		rec.Label("order-dependent-ill-formed(stranding only)")
+		return nil
 	}
 
 	// (a) success means the fixpoint was reached
@@ -435,6 +443,36 @@ func drawC11(t *rapid.T) C11Case {
 			c.Facts = append(c.Facts, m.P("d", m.Int(int64(i))))
 		}
 		c.Rules = []m.Rule{{Head: m.P("p", x, m.Var("nowhere")), Body: []m.Pred{m.P("d", x)}}}
+	case cls == 16 || cls == 17:
+		// both early-exit paths in one rule: an expression that passes on some bindings and
+		// raises an error on others, with or without an unbound head variable, facts in drawn order
+		c.Class = "ill-formed-mix"
+		vals := rapid.SliceOfN(rapid.SampledFrom([]int64{0, 1, 2, 3, 5, 9223372036854775807}), 2, 5).Draw(t, "vals")
+		seen := map[int64]bool{}
+		for _, v := range vals {
+			if !seen[v] {
+				seen[v] = true
+				c.Facts = append(c.Facts, m.P("n", m.Int(v)))
+			}
+		}
+		exprs := []*m.Expr{
+			m.Bin(">", m.Bin("/", m.V(m.Int(10)), m.V(x)), m.V(m.Int(0))),
+			m.Bin(">", m.Bin("+", m.V(x), m.V(m.Int(9223372036854775807))), m.V(m.Int(0))),
+			m.Bin("<", m.V(x), m.V(m.Int(3))),
+			m.Bin("==", m.Bin("*", m.V(x), m.V(m.Int(4611686018427387904))), m.V(m.Int(0))),
+		}
+		r := m.Rule{Head: m.P("bad", x), Body: []m.Pred{m.P("n", x)}}
+		if rapid.Bool().Draw(t, "unboundhead") {
+			r.Head = m.P("bad", x, m.Var("missing"))
+		}
+		ne := rapid.IntRange(1, 2).Draw(t, "nexprs")
+		for i := 0; i < ne; i++ {
+			r.Exprs = append(r.Exprs, rapid.SampledFrom(exprs).Draw(t, "expr"))
+		}
+		if rapid.Bool().Draw(t, "join") {
+			r.Body = append(r.Body, m.P("n", y))
+		}
+		c.Rules = []m.Rule{r}
 	case cls <= 15:
 		c.Class = "expr-error"
 		k := rapid.IntRange(1, 4).Draw(t, "k")
